@@ -22,6 +22,13 @@ RCP<const Basic> MIntPoly::as_symbolic() const
 hash_t MIntPoly::__hash__() const
 {
     hash_t seed = SYMENGINE_MINTPOLY;
+    // constants are equal whatever their variables are (see __eq__), so only
+    // the coefficient may enter the hash
+    if (is_constant()) {
+        for (auto &p : get_poly().dict_)
+            hash_combine<hash_t>(seed, mp_get_si(p.second));
+        return seed;
+    }
     for (auto var : get_vars())
         hash_combine<std::string>(seed, var->__str__());
 
@@ -70,6 +77,13 @@ RCP<const Basic> MExprPoly::as_symbolic() const
 hash_t MExprPoly::__hash__() const
 {
     hash_t seed = SYMENGINE_MEXPRPOLY;
+    // constants are equal whatever their variables are (see __eq__), so only
+    // the coefficient may enter the hash
+    if (is_constant()) {
+        for (auto &p : get_poly().dict_)
+            hash_combine<Basic>(seed, *(p.second.get_basic()));
+        return seed;
+    }
     for (auto var : get_vars())
         hash_combine<std::string>(seed, var->__str__());
 
